@@ -66,6 +66,10 @@ pub struct Rt<'a> {
 
     /// Runtime configuration.
     config: Config,
+
+    /// Set by [`Rt::crash`] until the next [`Rt::bounce`]. A crashed host owns
+    /// no sockets, but the network keeps answering on its behalf.
+    crashed: bool,
 }
 
 impl<'a> Rt<'a> {
@@ -84,6 +88,7 @@ impl<'a> Rt<'a> {
             nodename,
             handle: Some(handle),
             config,
+            crashed: false,
         }
     }
 
@@ -104,6 +109,7 @@ impl<'a> Rt<'a> {
             nodename,
             handle: Some(handle),
             config,
+            crashed: false,
         }
     }
 
@@ -118,6 +124,7 @@ impl<'a> Rt<'a> {
             nodename: String::new().into(),
             handle: None,
             config,
+            crashed: false,
         }
     }
 
@@ -202,7 +209,12 @@ impl<'a> Rt<'a> {
 
         if self.handle.take().is_some() {
             self.cancel_tasks();
+            self.crashed = true;
         };
+    }
+
+    pub(crate) fn is_crashed(&self) -> bool {
+        self.crashed
     }
 
     pub(crate) fn bounce(&mut self) {
@@ -211,6 +223,7 @@ impl<'a> Rt<'a> {
         }
 
         self.cancel_tasks();
+        self.crashed = false;
 
         if let Kind::Host { software } = &self.kind {
             let handle = with(&self.tokio, &self.local, || {
